@@ -760,6 +760,13 @@ func (e *Engine) MessageReceived(ctx context.Context, p peer.ID, m bsmsg.BitSwap
 		for _, entry := range e.peerLedger.WantlistForPeer(p) {
 			e.peerRequestQueue.Remove(entry.Cid, p)
 		}
+		// MessageSent may have dropped the ledger entry of a want whose task is
+		// still queued; drop those tasks too.
+		if topics := e.peerRequestQueue.PeerTopics(p); topics != nil {
+			for _, topic := range topics.Pending {
+				e.peerRequestQueue.Remove(topic, p)
+			}
+		}
 		e.peerLedger.ClearPeerWantlist(p)
 	}
 
@@ -774,9 +781,11 @@ func (e *Engine) MessageReceived(ctx context.Context, p peer.ID, m bsmsg.BitSwap
 	for _, entry := range cancels {
 		c := entry.Cid
 		log.Debugw("Bitswap engine <- cancel", "local", e.self, "from", p, "cid", c)
-		if e.peerLedger.CancelWant(p, c) {
-			e.peerRequestQueue.Remove(c, p)
-		}
+		// Remove the task even if the ledger no longer lists the want:
+		// MessageSent may have dropped the entry while a task for a newer
+		// request of the same CID is still queued.
+		e.peerLedger.CancelWant(p, c)
+		e.peerRequestQueue.Remove(c, p)
 	}
 
 	e.lock.Unlock()
